@@ -11,10 +11,14 @@ all pairs of a pool of kinds.
 
 Monitors on a pair (oracle = identity of the ASTs' canonical signatures, ``dslgen.signature``):
   eq / hash / set / dict : ``bool(x == y)``, ``hash(x) == hash(y)``, ``y in {x}``, ``{x: 1}.get(y)``
+  fidelity : the statement the fluent API hands back has the structure asked for (= what the raw constructors build):
+             ``Query.where/groupby/...`` read ``self.prefilter`` etc. through the lru-cached ``Source.__getitem__`` and
+             so can silently splice in the clause of an earlier statement that compares equal
   getitem  : ``x[name]`` / ``getattr(x, name)`` then the same on y: each must return *its own* output feature
              (identified by ``dslgen.structure``, which does not use forml's __eq__/__hash__) - the lru cache of
              ``Source.__getitem__`` must not hand out the other statement's feature
-  pickle   : a round trip keeps structure, equality and hash, and does not become equal to the other object
+  pickle   : a round trip keeps structure, equality and hash, and does not become equal to the other object - on
+             freshly built objects and again after they served schema / item access / parsing (cached properties)
   parser   : one ``alchemy.Parser`` (its ``generate_feature`` lru cache) parses x then y: each SQL text must be the
              text a fresh parser produces for that statement alone
   reader   : ``alchemy.Reader._parse_statement`` (lru cache keyed by the statement) likewise
@@ -28,6 +32,12 @@ Oracle relaxations:
   * for features forml defines ``==`` as hash equality, so there a collision *is* the confusion (known finding below).
   * schema classes are compared by their field lists only (the class name is not taken as part of the structure:
     forml deliberately leaves it out of both ``__eq__`` and ``__hash__``).
+  * a cache slot may be occupied by a *third*, earlier object (the caches are process wide), so a wrong answer is
+    classified from what came back (``structure_collision`` / ``sql_collision``: differs from the expected answer only in
+    literals that collide under hash -> the known literal mechanism), not only from the pair at hand.
+  * the shared-parser monitor is restricted to identical pairs when a reference is involved: the parser's feature cache
+    outlives the parsing context, so reference elements of a second parse stay bound to the first parse's alias object
+    (known finding); for different statements that artefact cannot be told from a confusion in the SQL text.
   * statements the parser cannot translate at all on the pinned tree (Not, Abs, windows, predicate factors - C06 matters)
     are skipped by the parser / reader monitors (counted as ``parser_unparseable``).
 """
@@ -706,8 +716,9 @@ def run(ctx):
         if index % stride or not ctx.mine(index // stride):
             continue
         run_statement(ctx, g, dsl, sql, ast, index, ctx.rng('var', index), keep)
-        if index % 301 == 0:
-            ctx.sample({'statement': ast})
+        if len(ctx.samples) < 1:
+            variants = [(v, w) for v, w, _ in g.leaf_variants(ast)][:2]
+            ctx.sample({'statement': ast, 'some_variants': [{'what': w, 'variant': v} for v, w in variants]})
     for i in range(ctx.pick(48, 640)):
         if not ctx.mine(i):
             continue
